@@ -347,3 +347,63 @@ UNITS += [
          assumptions=["infix grammar as emitted by InfixStringBuilder"],
          note="InfixEvaluator == plain infix evaluation (bounded, thorough)"),
 ]
+
+
+# ---------------------------------------------------------------------------
+# DeMorganSimplifier::dealias (host): following aliases ends on a node that is not an alias
+# ---------------------------------------------------------------------------
+from vkit.extract import LoopContracts as _LC  # noqa: E402
+
+DMS = "src/orange/orangeinp/detail/DeMorganSimplifier.cc"
+DEAL_MODEL = """
+typedef size_type NodeId;
+#define NNODE 16
+typedef struct { NodeId node; } Aliased;
+/* the CSG tree as seen by dealias: which nodes are Aliased and what they point to.  CsgTree invariant (enforced on insertion): a node only refers to nodes with a LOWER id. */
+bool g_is_alias[NNODE]; Aliased g_alias[NNODE]; size_type g_tree_size;
+NodeId g_w;    /* ghost witness: a node on the chain */
+static Aliased const* TREE_get_if_aliased(NodeId id) { __CPROVER_assert(id < g_tree_size, "celer_expect: CsgTree::operator[] id < size"); return g_is_alias[id] ? &g_alias[id] : 0; }   /* std::get_if<Aliased>(&tree_[id]) */
+#define CHAIN_OK(i) (!g_is_alias[i] || g_alias[i].node < (i))
+#define TREE_OK (g_tree_size <= NNODE && CHAIN_OK(0) && CHAIN_OK(1) && CHAIN_OK(2) && CHAIN_OK(3) && CHAIN_OK(4) && CHAIN_OK(5) && CHAIN_OK(6) && CHAIN_OK(7) && CHAIN_OK(8) && CHAIN_OK(9) && CHAIN_OK(10) && CHAIN_OK(11) && CHAIN_OK(12) && CHAIN_OK(13) && CHAIN_OK(14) && CHAIN_OK(15))
+"""
+DEAL_RULES = [
+    Rule(r"tree_\.size\(\)", "g_tree_size", "*", note="CsgTree::size()"),
+    Rule(r"NodeId dealiased\{node_id\};", "NodeId dealiased = node_id;", (0, 1), note="brace initialisation"),
+    Rule(r"while \(auto const\* aliased = std::get_if<Aliased>\(&tree_\[(\w+)\]\)\)\s*\{", r"while (TREE_get_if_aliased(\1))\n    {\n        Aliased const* aliased = TREE_get_if_aliased(\1);", (0, 1), note="while-with-declaration on std::get_if -> condition + declaration"),
+    Rule(r"if \(auto const\* aliased = std::get_if<Aliased>\(&tree_\[(\w+)\]\)\)\s*\{", r"if (TREE_get_if_aliased(\1))\n    {\n        Aliased const* aliased = TREE_get_if_aliased(\1);", (0, 1), note="if-with-declaration on std::get_if -> condition + declaration"),
+]
+
+
+def build_dealias(ctx):
+    import re
+    pc = ctx.func(DMS, r"^NodeId DeMorganSimplifier::dealias\(NodeId node_id\) const", DEAL_RULES, name="DeMorganSimplifier::dealias (host)")
+    body = pc.body
+    nloops = len(re.findall(r"\bwhile\b", body))
+    if nloops:
+        rep = []
+        body = _LC(["    __CPROVER_assigns(dealiased)\n    __CPROVER_loop_invariant(dealiased < g_tree_size && dealiased <= node_id)\n    __CPROVER_decreases(dealiased)\n"] + [None] * (nloops - 1)).apply(body, rep, "DeMorganSimplifier::dealias")
+        ctx.report.extend(rep)
+    return (HDR + DEAL_MODEL + """
+NodeId DMS_dealias(NodeId node_id)
+__CPROVER_requires(TREE_OK && node_id < g_tree_size)      /* own CELER_EXPECT + tree invariant */
+__CPROVER_assigns()
+/* the node to use in place of node_id is a real node, never another alias -- however long the alias chain is */
+__CPROVER_ensures(__CPROVER_return_value < g_tree_size && !g_is_alias[__CPROVER_return_value < NNODE ? __CPROVER_return_value : 0])
+/* and it is node_id itself exactly when node_id is not an alias */
+__CPROVER_ensures((__CPROVER_return_value == node_id) == !g_is_alias[node_id < NNODE ? node_id : 0])
+{""" + body + """}
+void h_deal(void)
+{
+    NodeId n;
+    DMS_dealias(n);
+    VERIF_CANARY();
+}
+""")
+
+
+UNITS += [
+    Unit("c10_dealias", build_dealias, "h_deal", enforce="DMS_dealias", loop_contracts=True, timeout=300, unwind=18, backend=["sat", "kissat", "cvc5"],
+         must_have=[r"DMS_dealias.postcondition", r"celer_expect"], checks=["--bounds-check", "--pointer-check"],
+         assumptions=["CsgTree invariant: a node refers only to lower node ids (so alias chains are finite)", "tree of <= 16 nodes in the harness (the loop is closed by a loop contract)"],
+         note="DeMorganSimplifier::dealias (host): for alias chains of any length the result is a node that is not an alias; it is the node itself iff that node is not an alias; all tree accesses in range"),
+]
